@@ -300,6 +300,26 @@ func observe(ps []*proc, tag string) {
 	}
 }
 
+func createRetry(p *proc, parts, repl, tries int) string {
+	for i := 0; i < tries-1; i++ {
+		ctx, cancel := context.WithTimeout(context.Background(), 5*time.Second)
+		d, err := pb.NewDatasetManagerClient(p.conn).Create(ctx, &pb.Dataset{Dimension: 3, Space: pb.Space_Euclidean, PartitionCount: uint32(parts), ReplicationFactor: uint32(repl)})
+		cancel()
+		if err == nil {
+			id, _ := uuid.FromBytes(d.GetId())
+			pids := []string{}
+			for _, pt := range d.GetPartitions() {
+				pid, _ := uuid.FromBytes(pt.GetId())
+				pids = append(pids, pid.String())
+			}
+			emit(event{"ev": "create", "via": p.id, "ok": 1, "id": id.String(), "err": "", "parts": pids})
+			return id.String()
+		}
+		time.Sleep(700 * time.Millisecond)
+	}
+	return create(p, parts, repl)
+}
+
 func create(p *proc, parts, repl int) string {
 	ctx, cancel := context.WithTimeout(context.Background(), 5*time.Second)
 	defer cancel()
@@ -452,6 +472,30 @@ func main() {
 	}
 	_ = d2
 	switch scenario {
+	case "leave-boot":
+		// the bootstrap node (usually the zero group's leader) is removed through another member and stops;
+		// the remaining members carry on: catalogue changes, a restart
+		ctx, cancel := context.WithTimeout(context.Background(), 5*time.Second)
+		_, err := pb.NewNodesManagerClient(b.conn).RemoveNode(ctx, &pb.Node{Id: 1})
+		cancel()
+		okv, es := 1, ""
+		if err != nil {
+			okv, es = 0, err.Error()
+		}
+		emit(event{"ev": "left", "node": 1, "ok": okv, "err": es})
+		time.Sleep(3000 * time.Millisecond)
+		a.kill()
+		observe(ps, "leave")
+		// the two remaining members have to elect a leader first: the creation is retried (only the
+		// successful attempt, or the last failure, is an event)
+		createRetry(b, 1, 2, 8)
+		observe(ps, "create")
+		c.kill()
+		c.join = "127.0.0.1:" + b.port // its old join address is gone with the bootstrap node
+		c.start()
+		observe(ps, "restart")
+		createRetry(c, 2, 2, 8)
+		observe(ps, "create")
 	case "rejoin":
 		// a member is removed, stops, and later joins again under the same id (same directory, same address).
 		// A dataset whose partitions are spread over all nodes is written and searched through every node
